@@ -189,6 +189,9 @@ def parse_operand(o):
         return ('move', parse_place(o[5:]))
     if o.startswith('const '):
         return ('const', o[6:])
+    if re.match(r'^[A-Za-z_<]', o):
+        # function items / unit constants are printed without the `const` keyword
+        return ('const', o)
     raise Unsupported('operand: ' + o)
 
 
